@@ -180,10 +180,12 @@ def _run(F, rep, tier):
         for (n, a, s, width) in cases:
             # the terminal operand: on the grid, and (unbounded kinds only, i.e. the float instances) strictly between the last term and the next
             # grid point - the count the dispatcher allocated is n for both, so the kernel must write the same n terms and never the terminal itself
-            for to_off in ((0,) if width else (0, 0.5)):
+            _last = a + s * (n - 1)
+            _offs = [0] + ([] if width else [0.5]) + ([1.0 / s] if s > 1 and (not width or _last + 1 <= width[1]) else [])   # x s below: +s/2 (floats), +1 (integer steps > 1)
+            for to_off in _offs:
                 for _once2 in (0,):
                     mk = (lambda v: TI(v, width[0], width[1])) if width else (lambda v: v)
-                    env = {"self.out": Mat("out", 1, n), "self.from": mk(a), "self.to": mk(a + s * (n - 1) + to_off * s), "self.step": mk(s), "$kind": mk(0)}
+                    env = {"self.out": Mat("out", 1, n), "self.from": mk(a), "self.to": mk(a + s * (n - 1) + (int(round(to_off * s)) if to_off * s == int(to_off * s) else to_off * s)), "self.step": mk(s), "$kind": mk(0)}
                     m = Machine(env)
                     try:
                         m.call(it["body"])
